@@ -214,10 +214,19 @@ def r4_nf(ctx):
     }
     seen = set()
     r = ev.ret()
-    conds = sorted(c for c in gamma_conds(r) if c.startswith(f'eq({names[0]},const:'))
-    lits = {c[len(f'eq({names[0]},const:'):-1].strip("'"): c for c in conds}
+    # every test on the type: equality with a literal, or membership in a literal tuple; the value for one type is the merged
+    # value restricted by what each of these tests gives for that type (so `type in (a, b)` followed by an inner test reads the same)
+    import re as _re
+    conds = sorted(c for c in gamma_conds(r) if c.startswith(f'eq({names[0]},const:') or c.startswith(f'in({names[0]},['))
+    universe = sorted({m for c in conds for m in _re.findall(r"const:'([^']*)'", c)})
+
+    def holds(c, lit):
+        vals = _re.findall(r"const:'([^']*)'", c)
+        return lit in vals
+    lits = {lit: lit for lit in universe if any(c.startswith('eq(') and holds(c, lit) for c in conds) or
+            any(c.startswith('in(') and holds(c, lit) for c in conds)}
     for lit, ck in sorted(lits.items()):
-        val = restrict(r, {c: (c == ck) for c in conds})
+        val = restrict(r, {c: holds(c, lit) for c in conds})
         if not isinstance(val, tuple) or len(val) != 2:
             continue
         seen.add(lit)
@@ -316,6 +325,10 @@ def r5_exhaustive(ctx):
             if isinstance(n, ast.Compare) and isinstance(n.ops[0], ast.Eq) and isinstance(n.comparators[0], ast.Constant) \
                     and 'type_def' in ast.unparse(n.left):
                 handled.add(n.comparators[0].value)
+            # membership in a literal tuple handles each of its members
+            if isinstance(n, ast.Compare) and isinstance(n.ops[0], ast.In) and isinstance(n.comparators[0], (ast.Tuple, ast.List, ast.Set)) \
+                    and 'type_def' in ast.unparse(n.left):
+                handled.update(e.value for e in n.comparators[0].elts if isinstance(e, ast.Constant))
     missing = sorted(accepted - handled - {'multi_band'})
     ctx.check('R5.exhaustive', f'{site(fj)} vs Edfa._nf/_calc_nf', not missing and len(accepted) >= 7, f'{E.qual}|unhandled|{",".join(missing)}',
               f'the loader accepts amplifier type_def {missing} that the NF model does not handle', f'accepted {sorted(accepted)}; handled {sorted(handled)}')
